@@ -1,12 +1,273 @@
-//! C19 — not built yet.
-use crate::runner::{Outcome, Summary};
-use crate::Ctx;
-use serde_json::Value;
+//! C19 — the calibration source map exactly accounts for every expansion.
+//!
+//! replay: TLC cases from spec/mc/MC_CalExpand.tla carry the source map the model builds (with the removal
+//!         that keeps it well-formed).  The real `Program::expand_calibrations_with_source_map` result is
+//!         projected to the same entries tree and compared.  A difference is classified with the property
+//!         itself (`shape_failures`: order, tiling, nesting, identity of unmodified entries, inverse
+//!         queries): violation iff the real map is ill-formed, tagged with the known finding iff the only
+//!         failures sit in the nested records of an expansion that hoisted a DECLARE.
+//! drive:  exports the *real* artefact (calibrations, body, expanded body, entries tree, the answers of
+//!         `list_sources` / `list_targets` for every index) for a sample of the TLC cases and for seeded
+//!         random larger programs; TLC evaluates `WellFormedExcept` on it (spec/trace/SourceMapTrace.tla),
+//!         i.e. the invariant is judged by TLC on the code's artefact.
 
-pub fn replay(_ctx: &Ctx, _case: &Value) -> Outcome {
-    panic!("C19: replay not implemented")
+use super::c16::abs;
+use super::c17;
+use crate::runner::{Outcome, Summary, Violation};
+use crate::util;
+use crate::Ctx;
+use quil_rs::instruction::Instruction;
+use quil_rs::program::InstructionIndex;
+use quil_rs::Program;
+use rand::Rng;
+use serde_json::{json, Value};
+use std::collections::BTreeSet;
+
+pub const FINDING: &str = "calibration-source-map-declare-hoisting";
+
+/// The real artefact of one expansion with source map, in the encoding of spec/SourceMapAlgebra.tla.
+pub struct Artefact {
+    pub status: &'static str,
+    pub out: Vec<Value>,
+    pub map: Value,
+    /// list_sources(t) for every t in 0..len(out)
+    pub sources: Vec<Vec<u64>>,
+    /// list_targets(s) for every s in 0..len(src), each target as its span [from, to)
+    pub targets: Vec<Vec<(u64, u64)>>,
+    /// body indices whose expansion output (Calibrations::expand) contains a DECLARE
+    pub hoisting: BTreeSet<u64>,
+    pub has_rewritten: bool,
+    pub has_nested: bool,
 }
 
-pub fn drive(_ctx: &Ctx) -> Summary {
-    panic!("C19: drive not implemented")
+pub fn artefact(program: &Program) -> Artefact {
+    let src: Vec<Instruction> = program.body_instructions().cloned().collect();
+    let mut hoisting = BTreeSet::new();
+    for (s, i) in src.iter().enumerate() {
+        if let Ok(Some(v)) = program.calibrations.expand(i, &[]) {
+            if v.iter().any(|x| matches!(x, Instruction::Declaration(_))) {
+                hoisting.insert(s as u64);
+            }
+        }
+    }
+    match program.expand_calibrations_with_source_map() {
+        Err(e) => Artefact {
+            status: c17::category::<()>(&Err(e)),
+            out: vec![],
+            map: json!([]),
+            sources: vec![],
+            targets: vec![],
+            hoisting,
+            has_rewritten: false,
+            has_nested: false,
+        },
+        Ok((p, m)) => {
+            let out = c17::body_abs(&p);
+            let map = abs::entries_to_abs(program, &m);
+            let sources = (0..out.len())
+                .map(|t| m.list_sources(&InstructionIndex(t)).into_iter().map(|s| s.0 as u64).collect())
+                .collect();
+            let targets = (0..src.len())
+                .map(|s| {
+                    m.list_targets(&InstructionIndex(s))
+                        .into_iter()
+                        .map(|t| match t {
+                            quil_rs::program::ExpansionResult::Unmodified(i) => (i.0 as u64, i.0 as u64 + 1),
+                            quil_rs::program::ExpansionResult::Rewritten(x) => (x.range().start.0 as u64, x.range().end.0 as u64),
+                        })
+                        .collect()
+                })
+                .collect();
+            let rew: Vec<&Value> = map.as_array().unwrap().iter().filter(|e| e["t"].get("r").is_some()).collect();
+            let has_nested = rew.iter().any(|e| e["t"]["r"]["exps"].as_array().unwrap().iter().any(|x| x["t"].get("r").is_some()));
+            Artefact { status: "done", out, map: map.clone(), sources, targets, hoisting, has_rewritten: !rew.is_empty(), has_nested }
+        }
+    }
+}
+
+fn span(t: &Value) -> (i64, i64) {
+    match t.get("r") {
+        Some(d) => (d["from"].as_i64().unwrap_or(-1), d["to"].as_i64().unwrap_or(-1)),
+        None => {
+            let u = t["u"].as_i64().unwrap_or(-1);
+            (u, u + 1)
+        }
+    }
+}
+
+/// The shape half of the property on an entries tree; returns (failures at this level, failures in nested
+/// records of entries whose source index is in `skip_nested`).
+fn level_failures(es: &[Value], lo: i64, hi: i64, path: &str, fails: &mut Vec<String>) {
+    let mut pos = lo;
+    let mut last_s = -1;
+    for e in es {
+        let s = e["s"].as_i64().unwrap_or(-1);
+        if s <= last_s {
+            fails.push(format!("{path}: source indices not strictly ascending at {s}"));
+        }
+        last_s = s;
+        let (a, b) = span(&e["t"]);
+        if a >= b {
+            fails.push(format!("{path}/{s}: empty or inverted range {a}..{b}"));
+        }
+        if a != pos {
+            fails.push(format!("{path}/{s}: range starts at {a}, previous entry ends at {pos}"));
+        }
+        pos = b;
+    }
+    if pos != hi {
+        fails.push(format!("{path}: entries end at {pos}, the range ends at {hi}"));
+    }
+}
+
+fn nested_failures(d: &Value, path: &str, fails: &mut Vec<String>) {
+    let es = d["exps"].as_array().cloned().unwrap_or_default();
+    let (a, b) = (d["from"].as_i64().unwrap_or(0), d["to"].as_i64().unwrap_or(0));
+    level_failures(&es, 0, b - a, path, fails);
+    for e in &es {
+        if let Some(c) = e["t"].get("r") {
+            nested_failures(c, &format!("{path}/{}", e["s"]), fails);
+        }
+    }
+}
+
+/// (top-level failures, failures inside the nested records per top-level source index)
+pub fn shape_failures(src: &[Value], a: &Artefact) -> (Vec<String>, Vec<(u64, Vec<String>)>) {
+    let es = a.map.as_array().cloned().unwrap_or_default();
+    let mut top = vec![];
+    level_failures(&es, 0, a.out.len() as i64, "map", &mut top);
+    let mut nested = vec![];
+    for e in &es {
+        let s = e["s"].as_u64().unwrap_or(0);
+        match e["t"].get("r") {
+            Some(d) => {
+                let mut f = vec![];
+                nested_failures(d, &format!("map/{s}"), &mut f);
+                if !f.is_empty() {
+                    nested.push((s, f));
+                }
+            }
+            None => {
+                // "an unmodified entry points to an identical instruction in the output"
+                let u = e["t"]["u"].as_u64().unwrap_or(u64::MAX) as usize;
+                if a.out.get(u) != src.get(s as usize) || src.get(s as usize).is_none() {
+                    top.push(format!("map/{s}: Unmodified({u}) does not point to the source instruction"));
+                }
+            }
+        }
+    }
+    // "querying sources of a target and targets of a source are inverse"
+    for (t, ss) in a.sources.iter().enumerate() {
+        if ss.len() != 1 {
+            top.push(format!("list_sources({t}) = {ss:?}, expected exactly one source"));
+        } else if !a.targets.get(ss[0] as usize).map(|v| v.iter().any(|(x, y)| *x <= t as u64 && (t as u64) < *y)).unwrap_or(false) {
+            top.push(format!("list_sources({t}) = {ss:?} but list_targets({}) does not contain {t}", ss[0]));
+        }
+    }
+    for (s, spans) in a.targets.iter().enumerate() {
+        if spans.len() > 1 {
+            top.push(format!("list_targets({s}) has {} entries, expected at most one", spans.len()));
+        }
+        for (x, y) in spans {
+            for t in *x..*y {
+                if a.sources.get(t as usize) != Some(&vec![s as u64]) {
+                    top.push(format!("list_targets({s}) contains {t} but list_sources({t}) is not [{s}]"));
+                }
+            }
+        }
+    }
+    (top, nested)
+}
+
+pub fn replay(_ctx: &Ctx, case: &Value) -> Outcome {
+    let case = match case.get("history") {
+        Some(h) => h[0].clone(),
+        None => case.clone(),
+    };
+    let program = abs::program_from_abs(&case);
+    let a = artefact(&program);
+    let mut o = Outcome::ok(a.has_rewritten);
+    if a.has_nested || !a.hoisting.is_empty() {
+        o.count("deep");
+    }
+    if a.status != "done" {
+        if case.get("status").and_then(|s| s.as_str()) == Some("done") {
+            o.diverge(format!("model expands the program, the code answers {}", a.status));
+        }
+        return o;
+    }
+    let same = case.get("map").map(|m| *m == a.map).unwrap_or(false) && case.get("out").map(|x| *x == json!(a.out)).unwrap_or(false);
+    let src = case["src"].as_array().cloned().unwrap_or_default();
+    let (top, nested) = shape_failures(&src, &a);
+    if top.is_empty() && nested.is_empty() {
+        if !same && case.get("map").is_some() {
+            o.diverge(format!("source map differs from the model's but is well-formed: {}", a.map));
+        }
+        return o;
+    }
+    // ill-formed: the known finding iff every failure sits in the nested records of an expansion that
+    // hoisted a DECLARE
+    let known = top.is_empty() && nested.iter().all(|(s, _)| a.hoisting.contains(s));
+    let all: Vec<String> = top.iter().cloned().chain(nested.iter().flat_map(|(_, f)| f.iter().cloned())).collect();
+    let mut v = Violation::new("source map well-formedness", case.get("map").cloned().unwrap_or(Value::Null), a.map.clone()).note(all.join("; "));
+    if known {
+        v = v.finding(FINDING);
+    }
+    o.violate(v);
+    o
+}
+
+// ------------------------------------------------------------------------------------------- drive
+
+fn record(prog: &Value) -> (Value, Outcome) {
+    let program = abs::program_from_abs(prog);
+    let a = artefact(&program);
+    let mut o = Outcome::ok(a.has_rewritten);
+    if a.has_nested || !a.hoisting.is_empty() {
+        o.count("deep");
+    }
+    if !a.hoisting.is_empty() {
+        o.count("hoisting");
+    }
+    let rec = json!({"ev": "map", "gcals": prog["gcals"], "mcals": prog["mcals"], "src": prog["src"],
+                     "status": a.status, "out": a.out, "map": a.map, "sources": a.sources,
+                     "targets": a.targets.iter().map(|v| v.iter().map(|(x, y)| json!([x, y])).collect::<Vec<_>>()).collect::<Vec<_>>(),
+                     "hoisting": a.hoisting.iter().collect::<Vec<_>>()});
+    (rec, o)
+}
+
+pub fn drive(ctx: &Ctx) -> Summary {
+    let n = ctx.arg_u64("n", 100);
+    let max_body = ctx.arg_u64("body", 4) as usize;
+    let stride = ctx.arg_u64("stride", 1).max(1) as usize;
+    let path = ctx.arg_str("out").expect("--out");
+    let mut out = std::io::BufWriter::new(std::fs::File::create(path).expect("create trace"));
+    let mut rng = util::rng(ctx.seed, 19);
+    let mut sum = Summary::default();
+    let mut emit = |prog: &Value, sum: &mut Summary| {
+        util::emit(&mut out, &json!({"ev": "reset"}));
+        let (rec, mut o) = record(prog);
+        util::emit(&mut out, &rec);
+        util::emit(&mut out, &json!({"ev": "cmp"}));
+        o.count_n("events", 3);
+        sum.absorb(prog, &o, true);
+    };
+    // (a) the programs TLC enumerated (every `stride`-th)
+    if let Some(cases) = ctx.arg_str("cases") {
+        let text = std::fs::read_to_string(cases).expect("read cases");
+        for (k, line) in text.lines().enumerate() {
+            if k % stride != 0 || line.trim().is_empty() {
+                continue;
+            }
+            let c: Value = serde_json::from_str(line).expect("case");
+            emit(&json!({"gcals": c["gcals"], "mcals": c["mcals"], "src": c["src"]}), &mut sum);
+        }
+    }
+    // (b) seeded random larger programs, declarations at every level
+    for _ in 0..n {
+        let cyclic = rng.gen_bool(0.05);
+        let prog = c17::random_program(&mut rng, cyclic, true, max_body);
+        emit(&prog, &mut sum);
+    }
+    sum
 }
